@@ -106,6 +106,24 @@ func checkStatus(run *rt.Run, w *World, o *SendObs, thr, thrSinks int, ctxInfo a
 				break
 			}
 		}
+		// an id under which only sink-typed node objects ran in this Send: each of its completes is a sink's,
+		// cancelled or not (the two lists are filled from one report per traversal)
+		onlySinks := map[string]bool{}
+		for _, e := range o.Entries {
+			id := string(e.Node.ID)
+			if _, seen := onlySinks[id]; !seen {
+				onlySinks[id] = true
+			}
+			if e.Node.Typ != eventlogger.NodeTypeSink {
+				onlySinks[id] = false
+			}
+		}
+		for id, n := range nComplete {
+			if onlySinks[id] && nSinks[id] != n {
+				run.Violation("history-pattern:complete-sinks", fmt.Sprintf("Complete names %s %d times and only sinks ran under that id in this Send, yet CompleteSinks names it %d times", id, n, nSinks[id]), wit())
+				break
+			}
+		}
 		for id, n := range nComplete {
 			if n-nSinks[id] > otherEnd[id] && !o.Cancelled {
 				run.Violation("history-pattern:complete-sinks", fmt.Sprintf("Complete names %s %d times, CompleteSinks %d times, but only %d traversals ended successfully at a node under that id that is not a sink", id, n, nSinks[id], otherEnd[id]), wit())
